@@ -2,6 +2,7 @@
 From Coq Require Import List String Ascii Bool Arith Permutation.
 From Spil Require Import Base.Str Base.Dict Base.Outcome Regex.Re Regex.MatchProofs Resolva.Template Resolva.Resolver
   Conf.Conf Conf.WF Sid.Query Sid.Sid Sid.TypingSpec Sid.TypingProofs Sid.SidProofs Sid.QueryStringProofs Sid.QueryProofs.
+From Spil Require Import Sid.NewlineLemmas Sid.NewlineProofs Sid.NewlineHits Sid.NewlineConf Sid.NewlineRefute.
 From SpilGen Require Hamlet.
 Import ListNotations.
 Local Open Scope string_scope.
@@ -14,6 +15,27 @@ Theorem C03_get_as_partial : forall c Ld, load c = Some Ld -> wf_loadedb Ld = tr
             sid_bool y = true.
 Proof. exact get_as_prefix. Qed.
 Print Assumptions C03_get_as_partial.
+
+(* in full (no guard on the string) for every configuration passing [nl_safe] *)
+Theorem C03_get_as : forall c Ld, load c = Some Ld -> wf_loadedb Ld = true -> nl_safe (r_tpls (l_sid Ld)) = true ->
+  forall x i, naturally_typed Ld x -> 1 <= i <= List.length (s_fields x) ->
+  exists y, get_as Ld x (nth (i - 1) (map fst (s_fields x)) "") = Ok y /\
+            s_fields y = firstn i (s_fields x) /\
+            s_string y = join "/" (firstn i (split_c "/" (s_string x))) /\
+            sid_bool y = true.
+Proof. exact get_as_prefix_conf. Qed.
+Print Assumptions C03_get_as.
+
+Theorem C03_get_as_unguarded_refuted :
+  ~ (forall x i, naturally_typed bad_loaded x -> 1 <= i <= List.length (s_fields x) ->
+     exists y, get_as bad_loaded x (nth (i - 1) (map fst (s_fields x)) "") = Ok y /\
+       s_fields y = firstn i (s_fields x) /\ s_string y = join "/" (firstn i (split_c "/" (s_string x))) /\ sid_bool y = true).
+Proof. exact get_as_prefix_refuted. Qed.
+Print Assumptions C03_get_as_unguarded_refuted.
+
+Example C03_nl_safe_here : nl_safe (r_tpls (l_sid Hamlet.the_loaded)) = true.
+Proof. vm_compute. reflexivity. Qed.
+Print Assumptions C03_nl_safe_here.
 
 Theorem C03_parent : forall c Ld, load c = Some Ld -> wf_loadedb Ld = true ->
   forall x, naturally_typed Ld x ->
@@ -30,6 +52,13 @@ Theorem C03_div_partial : forall c Ld, load c = Some Ld -> wf_loadedb Ld = true 
   parent Ld x = Ok y -> sid_div Ld y (last (map snd (s_fields x)) "") = Ok x.
 Proof. exact div_parent. Qed.
 Print Assumptions C03_div_partial.
+
+Theorem C03_div : forall c Ld, load c = Some Ld -> wf_loadedb Ld = true -> nl_safe (r_tpls (l_sid Ld)) = true ->
+  forall x y, naturally_typed Ld x -> 1 < List.length (s_fields x) ->
+  mem_c "?" (s_string x) = false -> mem_c ":" (s_string x) = false ->
+  parent Ld x = Ok y -> sid_div Ld y (last (map snd (s_fields x)) "") = Ok x.
+Proof. exact div_parent_conf. Qed.
+Print Assumptions C03_div.
 
 (* keytype / basetype / len *)
 Theorem C03_coherence : forall c Ld, load c = Some Ld -> wf_loadedb Ld = true ->
